@@ -36,6 +36,8 @@ def tiny_configs(wide: bool = False) -> List[dict]:
     C.append(config(12, [view("mdf", 0, size=6, slen=2, hdr=1, tail=1)]))      # MODE1/2352 scaled to 1+2+1
     C.append(config(6, [view("rev", 0, size=6, width=2)]))
     C.append(config(6, [view("rev", 0, size=4, width=1)]))
+    C.append(config(6, [view("rev", 0, size=6, width=3)]))                     # a sample width that is not a power of two (24-bit samples)
+    C.append(config(9, [view("off", 0, size=6, off=2), view("rev", 1, size=6, width=3)]))
     C.append(config(8, [view("off", 0, size=4, off=2), view("rev", 1, size=4, width=2)]))   # Roland reverse modes
     # AKAI sample: Segment <- StreamWrapper(size) <- StreamOffset(data window)
     C.append(config(10, [view("chain", 0, slen=2, lst=[3, 1, 4]), view("wrap", 1, size=5), view("off", 2, size=3, off=1)],
